@@ -32,8 +32,11 @@ def build_results(r, mode, rng):
         conf = 0.99 - 0.003 * k
         base = (10.0 * k, 3.0, 0.0)
         if x >= 0:
-            est = obj3d(base, yaw=(W - x) * math.pi / W, label="car", score=conf, vid=k + 1)
-            gt = obj3d(base, yaw=0.0, label="car", score=1.0, vid=k + 1)
+            # any base heading, on either side of the +-pi cut; heading difference (W - x) * pi / W to the left or to the right
+            phi = 0.0 if mode == "plane" else math.atan2(math.sin(math.pi / 4 + 2.39996 * k), math.cos(math.pi / 4 + 2.39996 * k))
+            sgn = 1.0 if k % 2 == 0 else -1.0
+            est = obj3d(base, yaw=phi + sgn * (W - x) * math.pi / W, label="car", score=conf, vid=k + 1)
+            gt = obj3d(base, yaw=phi, label="car", score=1.0, vid=k + 1)
         elif x == -1:
             est = obj3d(base, label="car", score=conf, vid=k + 1)
             variant = (k + len(r)) % 3
@@ -123,7 +126,7 @@ def _rand_bucket(rng: random.Random):
         base = (rng.uniform(-50, 50), rng.uniform(-50, 50), rng.uniform(-1, 1))
         u = rng.random()
         el = "car" if u < 0.8 else rng.choice(["unknown", "bus"])  # non-target estimate labels fall into the GT's bucket
-        est = obj3d(base, yaw=rng.uniform(0, math.pi), size=(rng.uniform(1.5, 2.5), rng.uniform(3.5, 5.5), rng.uniform(1.2, 2.0)), label=el,
+        est = obj3d(base, yaw=rng.uniform(-math.pi, math.pi), size=(rng.uniform(1.5, 2.5), rng.uniform(3.5, 5.5), rng.uniform(1.2, 2.0)), label=el,
                     score=confs[k] / 100000.0, vid=k + 1)
         v = rng.random()
         if v < 0.15 and el == "car":
@@ -135,10 +138,6 @@ def _rand_bucket(rng: random.Random):
             gpos = (base[0] + off * math.cos(ang), base[1] + off * math.sin(ang), base[2] + rng.uniform(-0.2, 0.2))
             gt = obj3d(gpos, yaw=est.state.orientation.yaw_pitch_roll[0] + rng.choice([0, 0, 0.1, -0.1, 0.5, 1.5, 3.0]) * rng.choice([1, 1, 0]),
                        size=tuple(s * rng.uniform(0.8, 1.2) for s in est.state.size), label=gl, score=1.0, vid=k + 1)
-            # keep ground-truth yaw in [0, pi] (C04 is about the area; heading conventions are C09)
-            y = gt.state.orientation.yaw_pitch_roll[0]
-            if y < 0 or y > math.pi:
-                gt = obj3d(gpos, yaw=min(max(y, 0.0), math.pi), size=gt.state.size, label=gl, score=1.0, vid=k + 1)
             if gl == "car":
                 ngt_car += 1
         results.append(DynamicObjectWithPerceptionResult(est, gt, POLICIES[policy]))
@@ -161,7 +160,7 @@ def ap_event(tid, results, g, prm, *, with_lists=True):
 
     mode = prm["mode"]
     ranked = sorted(results, key=lambda x: -x.estimated_object.semantic_score)
-    s6, hw3, el, gl = [], [], [], []
+    s6, hw3, el, gl, ya4, yb4 = [], [], [], [], [], []
     aphm = TPMetricsAph()
     for rr in ranked:
         m = rr.get_matching(MODES[mode])
@@ -172,6 +171,8 @@ def ap_event(tid, results, g, prm, *, with_lists=True):
         hw3.append(_fx(aphm.get_value(rr), 1e3))
         el.append(rr.estimated_object.semantic_label.label.value)
         gl.append(rr.ground_truth_object.semantic_label.label.value if rr.ground_truth_object is not None else "none")
+        ya4.append(int(round(rr.estimated_object.state.orientation.yaw_pitch_roll[0] * 1e4)) % 62832)
+        yb4.append(int(round(rr.ground_truth_object.state.orientation.yaw_pitch_roll[0] * 1e4)) % 62832 if rr.ground_truth_object is not None else 0)
     ap = Ap(TPMetricsAp(), [list(results)], g, [AW["car"]], MODES[mode], [prm["thr"]])
     aph = Ap(TPMetricsAph(), [list(results)], g, [AW["car"]], MODES[mode], [prm["thr"]])
     n = len(ranked)
@@ -181,7 +182,7 @@ def ap_event(tid, results, g, prm, *, with_lists=True):
     evs = [dict(tid=tid, ev="ApBegin", n=n, g=g, label="car", policy=prm["policy"], maximize=1 if mode in ("iou2d", "iou3d") else 0,
                 thr6=_fx(prm["thr"], 1e6))]
     for i in range(n):
-        evs.append(dict(tid=tid, ev="Entry", el=el[i], gl=gl[i], s6=s6[i], hw3=hw3[i], tp=tp[i], fp=fp[i], tph3=tph3[i]))
+        evs.append(dict(tid=tid, ev="Entry", el=el[i], gl=gl[i], s6=s6[i], hw3=hw3[i], ya4=ya4[i], yb4=yb4[i], tp=tp[i], fp=fp[i], tph3=tph3[i]))
     evs.append(dict(tid=tid, ev="ApEnd", ap6=-1 if ap.ap == float("inf") else _fx(ap.ap, 1e6),
                     aph6=-1 if aph.ap == float("inf") else _fx(aph.ap, 1e6)))
     return evs
@@ -300,7 +301,7 @@ def run(ctx: Ctx):
     )
     ctx.exhaustive = False
     ctx.assumptions += [
-        "heading weights in replays use yaw differences k*pi/2 with non-negative yaws (heading conventions are C09's business)",
+        "heading weights in replays use yaw differences k*pi/2 to either side of base headings spread over (-pi, pi] (plane-distance mode: base heading 0)",
         "trace AP compared in 1e-6 fixed point with tolerance (g+n+1)/g*1e-6; APH with tolerance ~1e-3*(1+n/g) and only for n <= 150",
         "trace driver skips buckets where a matching score is within 1e-5 of the threshold",
     ]
